@@ -517,7 +517,18 @@ def _process_internal_events_without_default_matchers(
     if event.name == InternalEvents.START_FLOW:
         # Start new flow state instance if flow exists
         flow_id = event.arguments["flow_id"]
-        if flow_id in state.flow_configs and flow_id != "main":
+        source_flow_state = state.flow_states.get(
+            event.arguments.get("source_flow_instance_uid", None), None
+        )
+        if (
+            source_flow_state is not None
+            and source_flow_state.flow_id != flow_id
+            and _is_done_flow(source_flow_state)
+        ):
+            # The flow that wanted to start this flow has ended in the meantime
+            # (it was stopped while the start was still pending)
+            log.info("Flow start dropped, parent flow has ended: %s", flow_id)
+        elif flow_id in state.flow_configs and flow_id != "main":
             started_instance = None
             if (
                 event.arguments.get("activated", None)
